@@ -35,6 +35,15 @@ FACE_OPS = ["diff", "interp", "max", "vec_diff", "vec_interp", "vec_multi", "dif
 
 
 def gen_case(rng, i, tier):
+    if i % 3 == 2:
+        # the corpora of C01 / C09 as workload: every shift (padded and unpadded paths), every spelling, 1-3 axes
+        from . import c01, c09
+
+        src = "c01" if rng.random() < 0.6 else "c09"
+        d = (c01 if src == "c01" else c09).gen_case(rng, i, tier)
+        if src == "c09":
+            d["call"].pop("metric_weighted", None)
+        return {"world": "corpus", "src": src, "d": d, "seq": ["call", "call"], "lazy": rng.random() < 0.15}
     world = "faces" if i % 2 else "simple"
     ops = SIMPLE_OPS if world == "simple" else FACE_OPS
     n = rng.choice([1, 2, 2, 3, 3])
@@ -239,7 +248,71 @@ def outcome(f):
         return ("raise", type(e).__name__, str(e)[:120])
 
 
+def run_corpus(ctx, desc):
+    """A call drawn from another check's corpus, made twice with the very same objects, then on fresh ones."""
+    import copy
+
+    from . import c01, c09
+
+    d = desc["d"]
+
+    def build():
+        if desc["src"] == "c01":
+            ds, g = c01.make_grid(d)
+            op = d["call"]["op"]
+        else:
+            ds, g = c09.build(d)
+            op = "cumsum"
+        da = c01.make_da(d, ds)
+        if desc["lazy"]:
+            da = da.chunk({x: 1 for x in da.dims[:1]})
+        kw = copy.deepcopy({k: d["call"][k] for k in ("to", "boundary", "fill_value") if k in d["call"]})
+        axis = copy.deepcopy(d["call"]["axis"])
+        return {"ds": ds, "da": da, "kw": kw, "axis": axis}, g, op
+
+    try:
+        W, g, op = build()
+    except Exception:
+        ctx.count("corpus_base_invalid")
+        return
+    names = sorted(W)
+
+    def call(W_, g_):
+        r = getattr(g_, op)(W_["da"], W_["axis"], **W_["kw"])
+        return r.compute(scheduler="synchronous") if desc["lazy"] else r
+
+    opax, to_eff = c01.effective_to(d)
+    shifts = [(d["pos"][a], to_eff[a]) for a in opax]
+    first = None
+    for k in range(2):
+        s0 = {n: snapshot.snap(W[n]) for n in names}
+        g0 = snapshot.snap_grid(g)
+        res = outcome(lambda: call(W, g))
+        s1 = {n: snapshot.snap(W[n]) for n in names}
+        ctx.judged(("corpus-unmodified", desc["src"], op, shifts, k, desc["lazy"]), True)
+        changed = [n for n in names if s0[n] != s1[n]]
+        if changed:
+            n = changed[0]
+            ctx.violation("arguments-unmodified", f"{op} {shifts} (call #{k + 1}, {res[0]}) modified its argument {n}: {snapshot.diff(s0[n], s1[n], n)}")
+            return
+        if snapshot.snap_grid(g) != g0:
+            ctx.violation("grid-unmodified", f"{op} {shifts} changed the Grid's own settings")
+            return
+        if first is None:
+            first = res
+        elif (res if res[0] == "return" else res[:2]) != (first if first[0] == "return" else first[:2]):
+            ctx.violation("history-independent", f"{op} {shifts}: repeating the call with the same objects gives another result")
+            return
+    W2, g2, _ = build()
+    ref = outcome(lambda: call(W2, g2))
+    ctx.judged(("corpus-fresh", desc["src"], op, shifts), True)
+    if (ref if ref[0] == "return" else ref[:2]) != (first if first[0] == "return" else first[:2]):
+        ctx.violation("history-independent", f"{op} {shifts}: result on re-used objects differs from the result on fresh objects")
+
+
 def run_case(ctx, desc):
+    if desc["world"] == "corpus":
+        return run_corpus(ctx, desc)
     W = build_world(desc)
     names = sorted(W)
     before = {k: snapshot.snap(W[k]) for k in names}
